@@ -23,6 +23,9 @@ struct State {
     last: Option<usize>,
     trace: Vec<(usize, &'static str)>,
     panicked: Vec<Option<String>>,
+    /// the task gave the baton back because a lock it needs is held by a parked task: it is not picked again before
+    /// another task has run
+    blocked: Vec<bool>,
 }
 
 pub struct Sched {
@@ -38,7 +41,10 @@ thread_local! {
 fn on_yield(site: &'static str) {
     let t = TASK.with(|t| t.borrow().clone());
     if let Some((s, id)) = t {
-        if (s.filter)(site) {
+        if site.starts_with("blocked.") {
+            s.yield_blocked(id, site);
+        } else if (s.filter)(site) {
+            s.m.lock().unwrap().blocked[id] = false;
             s.yield_point(id, site);
         }
     }
@@ -57,6 +63,7 @@ impl TaskCtx {
     }
     /// an explicit yield point of the harness (between two commands of one client)
     pub fn pause(&self, site: &'static str) {
+        self.sched.m.lock().unwrap().blocked[self.id] = false;
         self.sched.yield_point(self.id, site);
     }
 }
@@ -84,9 +91,24 @@ impl Sched {
         }
     }
 
+    fn yield_blocked(&self, id: usize, site: &'static str) {
+        {
+            let mut g = self.m.lock().unwrap();
+            if g.current != Some(id) {
+                // not under the scheduler (set-up): give the holder a chance the ordinary way
+                drop(g);
+                std::thread::yield_now();
+                return;
+            }
+            g.blocked[id] = true;
+        }
+        self.yield_point(id, site);
+    }
+
     fn finish(&self, id: usize, panic: Option<String>) {
         let mut g = self.m.lock().unwrap();
         g.st[id] = St::Done;
+        g.blocked[id] = false;
         g.panicked[id] = panic;
         if g.current == Some(id) {
             g.current = None;
@@ -105,7 +127,7 @@ pub fn lock_sites(site: &str) -> bool {
 pub fn run<T: Send + 'static>(tasks: Vec<Box<dyn FnOnce(&TaskCtx) -> T + Send>>, choices: &[u16], filter: fn(&str) -> bool) -> Result<(Vec<Result<T, String>>, RunInfo), String> {
     let n = tasks.len();
     let sched = Arc::new(Sched {
-        m: Mutex::new(State { current: None, st: vec![St::Runnable; n], site: vec!["start"; n], clock: 0, switches: 0, yields: 0, last: None, trace: vec![], panicked: vec![None; n] }),
+        m: Mutex::new(State { current: None, st: vec![St::Runnable; n], site: vec!["start"; n], clock: 0, switches: 0, yields: 0, last: None, trace: vec![], panicked: vec![None; n], blocked: vec![false; n] }),
         cv: Condvar::new(),
         filter,
     });
@@ -145,8 +167,13 @@ pub fn run<T: Send + 'static>(tasks: Vec<Box<dyn FnOnce(&TaskCtx) -> T + Send>>,
     let mut stuck = None;
     loop {
         let mut g = sched.m.lock().unwrap();
-        let runnable: Vec<usize> = (0..n).filter(|i| g.st[*i] == St::Runnable).collect();
+        let alive: Vec<usize> = (0..n).filter(|i| g.st[*i] == St::Runnable).collect();
+        if alive.is_empty() {
+            break;
+        }
+        let runnable: Vec<usize> = alive.iter().cloned().filter(|i| !g.blocked[*i]).collect();
         if runnable.is_empty() {
+            stuck = Some(format!("deadlock: every live task waits for a lock ({:?})", alive.iter().map(|i| g.site[*i]).collect::<Vec<_>>()));
             break;
         }
         let c = if pos < choices.len() { choices[pos] } else { 0 };
@@ -180,6 +207,13 @@ pub fn run<T: Send + 'static>(tasks: Vec<Box<dyn FnOnce(&TaskCtx) -> T + Send>>,
         }
         if stuck.is_some() {
             break;
+        }
+        // whoever waited for a lock may try again once somebody else has made progress (a task that only found the
+        // lock taken has not)
+        if !g.blocked[pick] {
+            for j in 0..n {
+                g.blocked[j] = false;
+            }
         }
     }
     nundb::verif::set_yield_handler(None);
